@@ -87,7 +87,8 @@ def invalid_value(rng, kind, attr):
 
     wrong = {
         'str': [5, {'$bytes': '6162'}, None, ['a'], {'a': 1}, 1.5],
-        'int': ['4', None, 1.5, {'$bytes': '34'}, [4]],
+        'int': ['4', None, 1.5, {'$bytes': '34'}, [4], 0.0, 1.0, 2.0, 4.0,
+                8.0],
         'dict': [[1], 'x', None, 5, {'$bytes': '7b7d'}, {'$tuple': [1]}],
         'bytes': ['abc', None, 5, ['a'], {'a': 1}],
     }[t]
